@@ -1,7 +1,7 @@
 (* The exact stage of the matcher after fixes D54 and D55: the position it returns is the FIRST occurrence of the target in the
    projected text that touches text of the document itself (a span with a run) and reaches into no tracked deletion; an occurrence
    lying wholly in generated text, or overlapping deleted text, is passed over. *)
-From Coq Require Import List Arith Bool Lia.
+From Coq Require Import List NArith Arith Bool Lia.
 Import ListNotations.
 From Adeu Require Import Str Doc Project Engine TrimProofs.
 
@@ -85,3 +85,34 @@ Proof. unfold find_on. intros H. pose proof (find_real_bound _ _ _ _ _ H) as Hb.
   apply find_real_sound in H as (_ & H2 & _). rewrite Nat.sub_0_r in H2.
   apply prefixb_length in H2. rewrite skipn_length in H2. cbn [Nat.add] in Hb.
   destruct t as [|c t]; cbn [length] in *; lia. Qed.
+
+(* ---------- stage 2: smart-quote normalisation (modelled since the last round; before, a recorded answer) ---------- *)
+Lemma qn_idem c : qn (qn c) = qn c.
+Proof. unfold qn. destruct (N.eqb c 8220 || N.eqb c 8221) eqn:E1; [reflexivity|].
+  destruct (N.eqb c 8216 || N.eqb c 8217) eqn:E2; [reflexivity|]. now rewrite E1, E2. Qed.
+(* the position the quote stage returns: the text standing there equals the target up to quote style, character for character; the range
+   lies inside the projected text, touches text of the document itself and no tracked deletion; no earlier place does all that *)
+Theorem find_quote_spec sp t i : find_quote sp t = Some i ->
+  map qn (firstn (length t) (skipn i (map_text sp))) = map qn t
+  /\ i + length t <= length (map_text sp)
+  /\ (exists x, In x sp /\ o_real x = true /\ i < o_end x /\ o_start x < i + length t)
+  /\ (forall x, In x sp -> o_real x = true -> i < o_end x -> o_start x < i + length t -> is_some_nonempty (o_del x) = false)
+  /\ (forall k, k < i -> prefixb (map qn t) (skipn k (map qn (map_text sp))) = true -> touches_real sp k (k + length t) = false).
+Proof. unfold find_quote. intros H. pose proof (find_real_bound _ _ _ _ _ H) as Hb.
+  pose proof (find_real_first _ _ _ _ _ H) as Hf.
+  apply find_real_sound in H as (_ & H2 & H3). rewrite Nat.sub_0_r in H2. rewrite map_length in H3.
+  split. { apply prefixb_firstn in H2. rewrite map_length, skipn_map, firstn_map in H2. exact H2. }
+  split. { apply prefixb_length in H2. rewrite skipn_length, !map_length in H2. rewrite map_length in Hb. cbn [Nat.add] in Hb.
+    destruct t as [|c t]; cbn [length] in *; lia. }
+  apply touches_real_span in H3 as [Ha Hc]. split; [exact Ha|]. split; [exact Hc|].
+  intros k Hk Hp. specialize (Hf k). rewrite map_length, Nat.sub_0_r in Hf. apply Hf; [lia|exact Hp]. Qed.
+(* such an answer is the one used: no recorded answer of the later stages is consumed *)
+Lemma approx_quote_used sp t orc i : find_quote sp t = Some i -> approx sp t orc = (Some (i, length t), orc).
+Proof. intros H. unfold approx. now rewrite H. Qed.
+Lemma find_match_quote_used sp t orc i : find_on sp t = None -> find_quote sp t = Some i -> find_match sp t orc = (Some (i, length t), orc).
+Proof. intros H0 H. unfold find_match, approx. now rewrite H0, H. Qed.
+(* where neither the text nor the target carries a typographic quote, the quote stage is the exact stage *)
+Lemma map_qn_plain (s : str) : (forall c, In c s -> qn c = c) -> map qn s = s.
+Proof. intros H. rewrite <- (map_id s) at 2. apply map_ext_in. exact H. Qed.
+Theorem find_quote_plain sp t : (forall c, In c t -> qn c = c) -> (forall c, In c (map_text sp) -> qn c = c) -> find_quote sp t = find_on sp t.
+Proof. intros Ht Hs. unfold find_quote, find_on. now rewrite (map_qn_plain _ Ht), (map_qn_plain _ Hs). Qed.
